@@ -12,6 +12,8 @@ correspondence: Model/Traces.lean predicts every rank's trace (communicator fami
                 shapes) for handler / swapper construction and every transpose path: compared exactly.
 route choice  : the real `_makeConnectionMap` is run in separate interpreters with different PYTHONHASHSEED; route maps must be identical
                 and equal to the model's under several tie-break orders; independent oracle: every route is a shortest path of direct connections.
+                Tie by translation: harness/translate_routes.py regenerates Generated/RoutesGen.lean from `_makeConnectionMap` on every run;
+                Props/C06Gen.lean proves generated = model (`gen_routes_eq`), hence independent of the set's iteration order (`gen_routes_deterministic`).
 """
 import itertools
 import json
@@ -730,7 +732,10 @@ def run(chk):
                 'sequences of depth 5 on <=3 ranks for the first configurations): H1-H3 and exact model traces; (b) grid reductions and figure blocks incl. a '
                 'plot-only rank; (c) the real driver for one step on 2-4 ranks under different policies; (d) random connection graphs (2-7 layouts, random names) '
                 'in interpreters with different string-hash seeds. non-trivial = more than one rank and at least one data-moving collective / graphs with >=4 connected layouts')
-    chk.proof_side(build=not getattr(chk, 'no_build', False), extra_props=('C06Extra', 'C06Traces', 'C06SwapperTraces'))
+    # `_makeConnectionMap` is regenerated from the source (harness/translate_routes.py -> Generated/RoutesGen.lean); Props/C06Gen.lean ties
+    # the generated function to the model `Handler.routeMap` of C06Extra for every iteration order of the set of unvisited names
+    common.run_translator(chk, 'translate_routes.py')
+    chk.proof_side(build=not getattr(chk, 'no_build', False), extra_props=('C06Extra', 'C06Traces', 'C06SwapperTraces', 'C06Gen'))
     drv = common.LeanDriver('C06.lean')
     try:
         part_handlers(chk, drv)
